@@ -1088,6 +1088,9 @@ func (vc *VC) doReturn(st *State, r *ssa.Return) error {
 	}
 	vc.curPos = r.Pos()
 	vc.retOrd++
+	// vacuity guard: the return point itself must be reachable under everything assumed so far (a contradictory
+	// assumption - e.g. a callee postcondition that cannot hold - would make every obligation below it void)
+	vc.coverOnce(st, fmt.Sprintf("cover.ret%d", vc.retOrd))
 	var resTerms []string
 	for i := 0; i < res.Len(); i++ {
 		resTerms = append(resTerms, env.vars[fmt.Sprintf("result%d", i)].T)
